@@ -70,6 +70,8 @@ struct FitOut {
     counts: Vec<f64>,
     inertia: f64,
     pred: Vec<usize>,
+    /// the same rows predicted one observation at a time (the `Ix1` form of `predict`)
+    pred1: Vec<usize>,
     tr: Vec<f64>,
 }
 
@@ -109,7 +111,8 @@ fn fit_with<D: Distance<f64>>(d: D, k: usize, x: &Array2<f64>, q: &Array2<f64>, 
     let all = if q.nrows() > 0 { ndarray::concatenate(Axis(0), &[x.view(), q.view()]).unwrap() } else { x.clone() };
     let pred: Array1<usize> = model.predict(&all);
     let tr: Array1<f64> = model.transform(&all);
-    Some(FitOut { centroids: rows_of(model.centroids()), counts: model.cluster_count().to_vec(), inertia: model.inertia(), pred: pred.to_vec(), tr: tr.to_vec() })
+    let pred1: Vec<usize> = all.rows().into_iter().map(|r| model.predict(&r.to_owned())).collect();
+    Some(FitOut { centroids: rows_of(model.centroids()), counts: model.cluster_count().to_vec(), inertia: model.inertia(), pred: pred.to_vec(), pred1, tr: tr.to_vec() })
 }
 fn fit_api(metric: Metric, k: usize, x: &Array2<f64>, q: &Array2<f64>, init: &Init, runs: usize, m: u64, tol: f64, seed: u64) -> Option<FitOut> {
     match metric {
@@ -166,6 +169,10 @@ fn oracle_fitted(ctx: &mut Ctx, class: &str, metric: Metric, k: usize, x: &[Vec<
         let dmin = ds.iter().cloned().fold(f64::INFINITY, f64::min);
         let a = o.pred[i];
         ctx.require(a < k && ds[a] <= dmin, "assign_is_argmin", class, || format!("row {} {:?} ({}): assigned {} at {:?}, minimum {:?} (all {:?})", i, r, if i < n { "training" } else { "new" }, a, ds.get(a), dmin, ds));
+        if let Some(a1) = o.pred1.get(i) {
+            ctx.require(*a1 < k && ds[*a1] <= dmin, "assign_is_argmin", &format!("{}:form=single_observation", class), || format!("row {} {:?} predicted alone: assigned {} at {:?}, minimum {:?} under the model's metric (all {:?})", i, r, a1, ds.get(*a1), dmin, ds));
+            ctx.require(*a1 == a, "single_observation_same_as_batch", class, || format!("row {} {:?}: predicted alone -> {}, inside the batch -> {}", i, r, a1, a));
+        }
         ctx.require(o.tr[i] == dmin, "transform_is_min_rdist", class, || format!("row {} {:?}: transform {:?}, minimal reduced distance {:?}", i, r, o.tr[i], dmin));
     }
     let mut recount = vec![0.0f64; k];
